@@ -89,6 +89,7 @@ class Interp:
         self.record_local_calls = record_local_calls
         self.notes = []
         self.extra_models = models or {}
+        self.inline_derived = False
 
     # ------------------------------------------------------------------ values / memory
     def load_ptr(self, st, ptr):
@@ -569,6 +570,9 @@ class Interp:
         if m is not None:
             return m
         local = fn.get("resolved_local", fn.get("local")) and path in self.f.bodies
+        if local and not self.inline_derived and (self.f.bodies[path].get("impl") or {}).get("derived"):
+            # compiler-derived trait impls (Clone, PartialEq, Debug ...) are kept as opaque calls
+            local = False
         if local and not self.opaque(path) and path not in stack and depth < self.max_depth:
             if self.record_local_calls:
                 st.events.append(("call_local", path, tuple(self.resolve(st, a) for a in args)))
@@ -656,6 +660,9 @@ class Interp:
             return [(st, ("ref", st.alloc(inner)))] if args[0][0] != "ref" else [(st, args[0])]
         if tr == "std::convert::Into" and nm == "into":
             return self.convert(st, fn, args[0], self.f.ty_s(fn["args"][0]), self.f.ty_s(fn["args"][1]), depth, stack)
+        if tr == "std::convert::TryInto" and nm == "try_into":
+            r = self.convert(st, fn, args[0], self.f.ty_s(fn["args"][0]), self.f.ty_s(fn["args"][1]), depth, stack, trait="std::convert::TryFrom", method="try_from")
+            return r
         if tr == "std::convert::From" and nm == "from" and not fn.get("resolved_local"):
             src = self.f.ty_s(fn["args"][1]) if len(fn["args"]) > 1 else None
             dst = self.f.ty_s(fn["args"][0])
@@ -722,7 +729,7 @@ class Interp:
                 return [(st, self.mk(O, "None"))]
             return None
         # Option / Result combinators
-        if p.startswith("std::option::Option::<T>::"):
+        if p.startswith("std::option::Option::<"):
             v = args[0]
             if nm in ("map", "ok_or", "ok_or_else", "unwrap_or", "cloned", "copied", "and_then", "unwrap_or_else", "is_some", "is_none", "map_or", "unwrap_or_default", "take", "as_ref", "as_deref", "filter"):
                 if nm == "take":
@@ -775,7 +782,7 @@ class Interp:
                     elif nm == "is_none":
                         out.append((s2, ("const", "bool", not some)))
                 return out
-        if p.startswith("std::result::Result::<T, E>::"):
+        if p.startswith("std::result::Result::<"):
             v = args[0]
             if nm in ("map", "map_err", "ok", "and_then", "cloned", "copied", "is_ok", "is_err", "or_else", "unwrap_or"):
                 out = []
@@ -838,13 +845,13 @@ class Interp:
             return out
         return None
 
-    def convert(self, st, fn, v, src, dst, depth, stack):
-        """T -> U through a local `impl From<T> for U`, else an opaque conversion term"""
-        if src == dst:
+    def convert(self, st, fn, v, src, dst, depth, stack, trait="std::convert::From", method="from"):
+        """T -> U through a local `impl From<T> for U` (or TryFrom), else an opaque conversion term"""
+        if src == dst and method == "from":
             return [(st, v)]
         for b in self.f.raw["bodies"]:
             im = b.get("impl")
-            if im and im.get("trait") == "std::convert::From" and b["name"] == "from" and im["self_s"] == dst and im["trait_args"] == [src]:
+            if im and im.get("trait") == trait and b["name"] == method and im["self_s"] == dst and im["trait_args"] == [src]:
                 if b["def"] in stack or depth >= self.max_depth + 2:
                     break
                 if self.record_local_calls:
@@ -852,7 +859,7 @@ class Interp:
                 fid = self.new_frame(st)
                 st.frames[fid][1] = v
                 return self.run_body(b, st, fid, depth + 1, stack)
-        term = ("call", "<%s as From<%s>>::from" % (dst, src), (self.resolve(st, v),))
+        term = ("call", "<%s as %s<%s>>::%s" % (dst, trait.split("::")[-1], src, method), (self.resolve(st, v),))
         st.events.append(("call", term[1], term[2]))
         return [(st, term)]
 
